@@ -208,7 +208,7 @@ fn strings_over(symbols: &[&str], max_len: usize) -> Vec<String> {
 }
 
 fn structured_cases(dir: PathBuf, matrix: String, tier: Tier) -> CaseSpace<String> {
-    let cases: Vec<String> = vec!["homographs-127".into(), "homographs-128".into(), "big-table".into(), "layers-15".into(), "layers-16".into(), "long-keys".into(), "escaped-keys".into(), "layers-from-files".into()];
+    let cases: Vec<String> = vec!["homographs-127".into(), "homographs-128".into(), "big-table".into(), "layers-15".into(), "layers-16".into(), "long-keys".into(), "escaped-keys".into(), "layers-from-files".into(), "text-beyond-64k".into()];
     CaseSpace {
         label: "lexicons/structured".into(),
         cases,
@@ -335,6 +335,35 @@ fn structured_cases(dir: PathBuf, matrix: String, tier: Tier) -> CaseSpace<Strin
                                 let texts = vec!["あaaあ".to_string(), "aあa".to_string()];
                                 compare_lookups(&d, &layers, &texts, c, &mut o2);
                                 compare_exact(&d, &layers, &vec!["あ".to_string(), "あa".to_string(), "あaa".to_string()], c, &mut o2);
+                            }
+                        }
+                    }
+                    "text-beyond-64k" => {
+                        // lookup is not limited to analysable texts: offsets and ends beyond 65535
+                        let rows = vec![Row::new("東", 1, 1, 1, P_NOUN), Row::new("東京", 1, 1, 2, P_NOUN), Row::new("東京都", 1, 1, 3, P_NOUN), Row::new("あ", 1, 1, 4, P_NOUN), Row::new("あ東", 1, 1, 5, P_NOUN), Row::new("都に", 1, 1, 6, P_NOUN)];
+                        let layers = vec![rows];
+                        match build_layers(&dir, &matrix, &layers) {
+                            Err(e) => o2.fail(Failure::new("build-error", format!("{}: {}", c, e))),
+                            Ok(d) => {
+                                let text = format!("{}東京都に", "あ".repeat(21850));
+                                let lex = d.lexicon();
+                                let bytes = text.as_bytes();
+                                for off in (0..40).chain(65500..=bytes.len()) {
+                                    o2.evaluations += 1;
+                                    let mut obs: Vec<(usize, u32)> = lex.lookup(bytes, off).map(|e| (e.end, e.word_id.as_raw())).collect();
+                                    obs.sort();
+                                    let mut exp: Vec<(usize, u32)> = Vec::new();
+                                    for (i, r) in layers[0].iter().enumerate() {
+                                        if bytes[off..].starts_with(r.surface.as_bytes()) {
+                                            exp.push((off + r.surface.len(), i as u32));
+                                        }
+                                    }
+                                    exp.sort();
+                                    if obs != exp {
+                                        o2.fail(Failure::new("lookup-differs", format!("{} (text of {} bytes) offset {}: lookup returned {:?}, naive scan {:?}", c, bytes.len(), off, obs, exp)));
+                                        break;
+                                    }
+                                }
                             }
                         }
                     }
